@@ -615,6 +615,63 @@ def _straight(cfg, src, dst, avoid):
     return dst in cfg.reach([src], blocked={avoid} | heads)
 
 
+def c06_15(ctx):
+    """an unterminated or mis-nested conditional in the scriptSig cannot swallow the scriptPubKey (shared with C07.13: cell evaluation
+    of op_if / op_notif over all token sequences up to length 5)"""
+    from rules.C07 import c07_13
+    return c07_13(ctx)
+
+
+def c06_16(ctx):
+    """op_checkmultisig / op_checksigadd-style loops: the digest a signature is verified against is computed *in that iteration* from
+    that signature's own hash-type byte.  A digest carried over from an earlier iteration lets a signature whose hash-type byte was
+    changed after signing (it then commits to a different message) still verify"""
+    out = []
+    spec = "op:op_checkmultisig"
+    mod, fn = rl.get(ctx, spec)
+    cfg = cfg_of(fn)
+    vsites = rl.find_calls(fn, "verify")
+    if not vsites:
+        raise AnalysisError("op_checkmultisig: verify call not found")
+    for n, c in vsites:
+        if not c.args or not n.loops:
+            continue
+        zarg = c.args[0]
+        # the outermost loop that iterates over the signatures: the one whose body contains the sig_hash call
+        hsites = [hn for hn, hc in rl.find_calls(fn, "sig_hash")]
+        if not hsites:
+            out.append(ctx.bad(spec, "the digest `%s` is not computed by sig_hash" % ast.unparse(zarg), c, mod, key="digest-per-signature"))
+            continue
+        loops = [cfg.loops[h] for h in cfg.loops if n.id in cfg.loops[h].body]
+        sig_loop = None
+        for lp in loops:
+            if isinstance(lp.stmt, ast.For) and "param:" not in "".join(origins(fn, lp.head, lp.stmt.iter)) or True:
+                if any(hn.id in lp.body for hn in hsites) or sig_loop is None:
+                    sig_loop = lp if sig_loop is None or len(lp.body) > len(sig_loop.body) else sig_loop
+        in_loop = [hn for hn in hsites if sig_loop is not None and hn.id in sig_loop.body]
+        if sig_loop is None or not in_loop:
+            out.append(ctx.bad(spec, "sig_hash is computed outside the loop over the signatures: every signature is checked against one digest whatever its hash type", c, mod,
+                               key="digest-per-signature"))
+            continue
+        starts = []
+        for a, label in sig_loop.body_entry:
+            starts += [b for b, l in cfg.succ[a] if l == label]
+        r = cfg.reach(starts, blocked={hn.id for hn in in_loop}, within=set(sig_loop.body) | {sig_loop.head})
+        if n.id in r:
+            p = cfg.path(starts, [n.id], blocked={hn.id for hn in in_loop})
+            out.append(ctx.bad(spec, "an iteration over the signatures can reach `%s` without recomputing the digest (path %s): the digest of an earlier signature's hash type "
+                                     "is reused, so a signature whose hash-type byte was altered after signing still verifies" % (ast.unparse(c)[:50], cfg.fmt_path(p or [])),
+                               c, mod, key="digest-per-signature"))
+        else:
+            # and the hash type handed to sig_hash is the iteration's own
+            hn = in_loop[0]
+            hc = [hc for x, hc in rl.find_calls(fn, "sig_hash") if x.id == hn.id][0]
+            out.append(ctx.ok(spec, "each signature is verified against `%s`, computed in its own iteration" % ast.unparse(hc), c, mod, key="digest-per-signature"))
+    if not out:
+        raise AnalysisError("op_checkmultisig: no verify call inside a loop")
+    return out
+
+
 def c06_12(ctx):
     """MEMO: the message a signature is checked against is recomputed from the transaction as it is now -- a midstate kept from an
     earlier call would let a signature made before an edit (amount, script, sequence, output) still verify afterwards (shared with C05.6)"""
@@ -718,5 +775,7 @@ OBLIGATIONS = [
     ("C06.12", "MEMO", c06_12),
     ("C06.13", "OWNERSHIP", c06_13),
     ("C06.14", "GUARD presence", c06_14),
+    ("C06.15", "CELLS nesting", c06_15),
+    ("C06.16", "GUARD per-iteration", c06_16),
 ]
 FLOORS = {"C06.2": 9, "C06.3": 4, "C06.7": 3, "C06.9": 3, "C06.10": 10}
